@@ -277,7 +277,7 @@ func (c SPConf) build() *saml2.SAMLServiceProvider {
 	default:
 		sp.SPKeyStore = TLSKeyStore(c.EncField)
 	}
-	if c.EncCertState != "" {
+	if c.EncCertState != "" && c.EncField != "-" {
 		k := c.EncField
 		if k == "" {
 			k = "KS"
@@ -294,7 +294,17 @@ func (c SPConf) build() *saml2.SAMLServiceProvider {
 		sp.SPKeyStore = dsig.TLSCertKeyStore(tls.Certificate{Certificate: chain, PrivateKey: RSAKey(k)})
 	}
 	if c.EncSetter != "" {
-		if err := sp.SetSPKeyStore(SetterKeyStore(c.EncSetter)); err != nil {
+		ks := SetterKeyStore(c.EncSetter)
+		if c.EncField == "-" {
+			// the setter is the only key: a certificate state applies to it
+			switch c.EncCertState {
+			case "empty":
+				ks.Cert = []byte{}
+			case "garbage":
+				ks.Cert = []byte("this is not a DER certificate")
+			}
+		}
+		if err := sp.SetSPKeyStore(ks); err != nil {
 			panic(err)
 		}
 	}
